@@ -524,6 +524,10 @@ func c17J2kOne(c *hx.Ctx, n int, a []int) {
 			cl := "j2k-misdeclared"
 			if !rep {
 				cl = clause
+			} else if derr != nil && !dp && ((a[4] > 0 && a[4] < a[0]) || (a[5] > 0 && a[5] < a[1])) {
+				// a multi-tile stream the library's own decoder rejects: the tiled-geometry defects of C19
+				// (code-block index / sub-band split disagree between encoder and decoder for unaligned tiles)
+				cl = "j2k-tiled-stream-undecodable"
 			}
 			act := fmt.Sprintf("decoded %dx%d c=%d bd=%d err=%v", g.w, g.h, g.c, g.bd, derr)
 			if dp {
